@@ -95,6 +95,28 @@ func linOf(t *Term) *linForm {
 			}
 		}
 	}
+	if t.K == 'k' && t.Name == "len" && len(t.Args) == 1 {
+		a := t.Args[0]
+		// len("...") of a constant string
+		if a.K == 'c' && strings.HasPrefix(a.Name, "\"") {
+			if u, err := strconv.Unquote(a.Name); err == nil {
+				l.k = int64(len(u))
+				return l
+			}
+		}
+		// len(x[lo:hi]) = hi - lo ; len(x[lo:]) = len(x) - lo
+		if a.K == 'o' && a.Name == "slice" && len(a.Args) == 3 {
+			if a.Args[2].K == 'c' && a.Args[2].Name == "_" {
+				l.add(linOf(TCall("len", nil, a.Args[0])), 1)
+			} else {
+				l.add(linOf(a.Args[2]), 1)
+			}
+			if !(a.Args[1].K == 'c' && a.Args[1].Name == "_") {
+				l.add(linOf(a.Args[1]), -1)
+			}
+			return l
+		}
+	}
 	s := t.String()
 	l.c[s] = 1
 	l.t[s] = t
@@ -121,9 +143,46 @@ func stateIneqs(st *State) []*linForm {
 				l.add(b, -1)
 			}
 			out = append(out, l)
+		case "true":
+			// strings.HasPrefix(s, p) / HasSuffix  =>  len(s) - len(p) >= 0
+			if f.Pos && f.A.K == 'k' && (f.A.Name == "strings.HasPrefix" || f.A.Name == "strings.HasSuffix") && len(f.A.Args) == 2 {
+				l := newLin()
+				l.add(linOf(TCall("len", nil, f.A.Args[0])), 1)
+				l.add(linOf(TCall("len", nil, f.A.Args[1])), -1)
+				out = append(out, l)
+			}
 		case "eq":
+			if !f.Pos && f.B != nil {
+				// s != ""  =>  len(s) - 1 >= 0 ;  len(x) != 0  =>  len(x) - 1 >= 0
+				for _, pr := range [][2]*Term{{f.A, f.B}, {f.B, f.A}} {
+					if pr[0].K == 'c' && pr[0].Name == "\"\"" {
+						l := newLin()
+						l.add(linOf(TCall("len", nil, pr[1])), 1)
+						l.k--
+						out = append(out, l)
+					}
+					if pr[0].K == 'c' && pr[0].Name == "0" && pr[1].K == 'k' && (pr[1].Name == "len" || pr[1].Name == "cap") {
+						l := newLin()
+						l.add(linOf(pr[1]), 1)
+						l.k--
+						out = append(out, l)
+					}
+				}
+			}
 			if !f.Pos || f.A.K == 'n' || f.B.K == 'n' {
 				continue
+			}
+			// x == "literal"  =>  len(x) == len(literal)
+			for _, pr := range [][2]*Term{{f.A, f.B}, {f.B, f.A}} {
+				if pr[0].K == 'c' && strings.HasPrefix(pr[0].Name, "\"") {
+					a, b := linOf(TCall("len", nil, pr[1])), linOf(TCall("len", nil, pr[0]))
+					l1, l2 := newLin(), newLin()
+					l1.add(a, 1)
+					l1.add(b, -1)
+					l2.add(b, 1)
+					l2.add(a, -1)
+					out = append(out, l1, l2)
+				}
 			}
 			if !numericTerm(f.A) && !numericTerm(f.B) {
 				continue
@@ -135,6 +194,57 @@ func stateIneqs(st *State) []*linForm {
 			l2.add(b, 1)
 			l2.add(a, -1)
 			out = append(out, l1, l2)
+		}
+	}
+	// postconditions of standard-library results mentioned in the state
+	seen := map[string]bool{}
+	for _, f := range st.m {
+		for _, top := range f.terms() {
+			top.walk(func(x *Term) {
+				if x.K != 'k' || seen[x.String()] {
+					return
+				}
+				seen[x.String()] = true
+				switch x.Name {
+				case "strings.Index", "strings.LastIndex":
+					// r >= 0  =>  r + len(sep) <= len(s); unconditional when len(sep) <= 1 (r = -1 gives len(s) >= 0)
+					if len(x.Args) == 2 {
+						sep := linOf(TCall("len", nil, x.Args[1]))
+						nonneg := false
+						for _, g := range st.m {
+							if g.Op == "lt" && !g.Pos && g.B != nil && g.B.K == 'c' && g.B.Name == "0" && (g.A.String() == x.String() || st.EqualUnder(g.A, x)) {
+								nonneg = true
+							}
+						}
+						if nonneg || (len(sep.c) == 0 && sep.k <= 1) {
+							l := newLin()
+							l.add(linOf(TCall("len", nil, x.Args[0])), 1)
+							l.add(linOf(x), -1)
+							l.add(sep, -1)
+							out = append(out, l)
+						}
+						// r >= -1
+						l2 := newLin()
+						l2.add(linOf(x), 1)
+						l2.k++
+						out = append(out, l2)
+					}
+				case "path.Clean", "path/filepath.Clean", "filepath.Clean":
+					// never empty
+					l := newLin()
+					l.add(linOf(TCall("len", nil, x)), 1)
+					l.k--
+					out = append(out, l)
+				case "strings.TrimLeft", "strings.TrimSpace", "strings.TrimPrefix", "strings.TrimSuffix":
+					// not longer than the input
+					if len(x.Args) >= 1 {
+						l := newLin()
+						l.add(linOf(TCall("len", nil, x.Args[0])), 1)
+						l.add(linOf(TCall("len", nil, x)), -1)
+						out = append(out, l)
+					}
+				}
+			})
 		}
 	}
 	return out
